@@ -25,7 +25,10 @@ RULE = ("(1) every cell of {%d identifiers: _, __, k, v, self, it, itertools, im
         "nonlocal, if, return in loop, chained assignment, class decorator, comprehension, lambda} x both "
         "wrappers (unparser alternating); (2) Hypothesis-drawn programs converted as generated and after a "
         "consistent renaming of their identifiers onto the risky set; (3) fresh-suffix invariant on every "
-        "conversion. Non-trivial: the cell's output really contains a helper name (checked on the output "
+        "conversion; (4) %d programs in which two different entities (nested / redefined / sibling functions "
+        "and classes, a function and its parameter or local, methods, decorated definitions, loop targets, "
+        "import aliases) carry two different or the SAME identifier, %d name choices each. "
+        "Non-trivial: the cell's output really contains a helper name (checked on the output "
         "text); distinct by cell.")
 
 BUILTINS_CALLED = ["type", "setattr", "hasattr", "globals", "locals", "iter", "next", "tuple", "list",
@@ -351,15 +354,118 @@ def _rename_shard(item):
     return part
 
 
+# ------------------------------------------------------------------ (4) coinciding identifiers
+
+# programs in which two DIFFERENT entities (two functions, two classes, a function and its
+# parameter, ...) may or may not carry the same identifier; each template is legal Python and
+# well-defined whichever two names are plugged in. The user's choice to re-use a name must not
+# make two temporaries collide (helper names derived from user names) or confuse two scopes.
+COINCIDE = {
+    "nested-functions-both-own-captured-variables":
+        "def {A}(n0):\n    h0 = n0\n    def {B}(m0):\n        s0 = m0\n        def p0():\n            nonlocal h0, s0\n            h0 += 1\n            s0 += 10\n            return h0 + s0\n        return p0(), s0\n    return {B}(1), h0\nprint({A}(2))\n",
+    "nested-functions-read-both":
+        "def {A}(n0):\n    h0 = n0\n    def {B}(m0):\n        s0 = m0\n        def p0():\n            return h0 + s0\n        s0 += 1\n        return p0()\n    h0 += 1\n    return {B}(1)\nprint({A}(2))\n",
+    "three-nested-functions":
+        "def {A}():\n    a0 = 1\n    def {B}():\n        b0 = 2\n        def {A}():\n            nonlocal a0, b0\n            a0, b0 = a0 + 10, b0 + 20\n            return a0 + b0\n        return {A}() + b0\n    return {B}() + a0\nprint({A}())\n",
+    "function-redefined":
+        "def {A}():\n    c0 = 0\n    def i0():\n        nonlocal c0\n        c0 += 1\n        return c0\n    return i0() + i0()\nr0 = {A}()\ndef {B}():\n    d0 = 5\n    def i0():\n        nonlocal d0\n        d0 *= 2\n        return d0\n    return i0() + i0()\nprint(r0, {B}(), {A}())\n",
+    "sibling-functions-with-loops":
+        "def {A}(q0):\n    for e0 in q0:\n        if e0 > 1:\n            return e0\n    return -1\ndef {B}(q0):\n    t0 = 0\n    while q0:\n        t0 += q0.pop()\n        if t0 > 4:\n            break\n    else:\n        return 'all'\n    return t0\nprint({A}([1, 2, 3]), {B}([1, 2, 3]), {B}([1]))\n",
+    "nested-function-loops-and-returns":
+        "def {A}(q0):\n    def {B}(r0):\n        for e0 in r0:\n            if e0 == 2:\n                return 'in'\n        return 'none'\n    for e0 in q0:\n        if {B}([e0]) == 'in':\n            return ('out', e0)\n    return 'end'\nprint({A}([1, 2, 3]), {A}([5]))\n",
+    "class-redefined-with-itself-as-base":
+        "class {A}:\n    def run(self):\n        return 'base'\nclass {B}({A}):\n    g0 = 'hi '\n    def run(self):\n        return self.g0 + super().run()\n    def extra(self):\n        return [c0.__name__ for c0 in type(self).__mro__][:-1]\nprint({B}().run(), {B}().extra())\n",
+    "alternative-class-definitions":
+        "f0 = 1\nif f0:\n    class {A}:\n        v0 = 'first'\n        def m0(self):\n            return self.v0\nelse:\n    class {B}:\n        w0 = 'second'\n        def n0(self):\n            return self.w0\nclass {B}:\n    w0 = 'third'\n    def n0(self):\n        return self.w0 + '!'\nprint({B}().n0(), hasattr({A}, 'v0'))\n",
+    "nested-classes":
+        "class {A}:\n    x0 = 1\n    class {B}:\n        y0 = 2\n        def m0(self):\n            return self.y0\n    def m0(self):\n        return self.x0 + self.{B}().m0()\nprint({A}().m0(), {A}.{B}.y0)\n",
+    "same-inner-class-in-two-classes":
+        "class P0:\n    class {A}:\n        t0 = 'p'\n        def m0(self):\n            return self.t0 * 2\nclass Q0:\n    class {B}:\n        t0 = 'q'\n        u0 = 3\n        def m0(self):\n            return self.t0 * self.u0\nprint(P0.{A}().m0(), Q0.{B}().m0())\n",
+    "inner-class-twice-in-one-class":
+        "class P0:\n    class {A}:\n        t0 = 'p'\n    first0 = {A}\n    class {B}:\n        t0 = 'q'\n        u0 = 3\n        def m0(self):\n            return self.t0 * self.u0\nprint(P0.first0.t0, P0.{B}().m0())\n",
+    "function-and-class":
+        "def {A}(a0):\n    b0 = a0\n    def i0():\n        nonlocal b0\n        b0 += 1\n        return b0\n    return i0()\nr0 = {A}(1)\nclass {B}:\n    z0 = r0\n    def m0(self):\n        return self.z0 + 1\nprint(r0, {B}().m0())\n",
+    "method-and-class":
+        "class {A}:\n    def {B}(self):\n        return 'm'\n    z0 = 1\nprint({A}().{B}(), {A}.z0)\n",
+    "function-and-its-parameter":
+        "def {A}({B}, c0=2):\n    def i0():\n        nonlocal {B}\n        {B} += c0\n        return {B}\n    return i0()\nprint({A}(1))\n",
+    "function-and-its-local":
+        "def {A}():\n    {B} = 3\n    def i0():\n        return {B} + 1\n    return i0()\nprint({A}())\n",
+    "class-and-its-attribute":
+        "class {A}:\n    {B} = 4\n    z0 = {B} + 1\n    def m0(self):\n        return self.{B}\nprint({A}.z0, {A}().m0())\n",
+    "two-decorated-classes":
+        "def t0(l0):\n    def ap0(c0):\n        c0.tags = getattr(c0, 'tags', ()) + (l0,)\n        return c0\n    return ap0\ndef fr0(c0):\n    c0.frozen = True\n    return c0\n@t0('outer')\n@fr0\n@t0('inner')\nclass {A}:\n    x0 = 0\n@fr0\n@t0('only')\nclass {B}({A}):\n    pass\nprint({A}.tags, {B}.tags, {A}.frozen)\n",
+    "two-decorated-functions":
+        "def t0(l0):\n    def ap0(f0):\n        def w0(*a0):\n            return (l0, f0(*a0))\n        return w0\n    return ap0\n@t0('a')\n@t0('b')\n@t0('c')\ndef {A}(x0):\n    return x0\nr0 = {A}(1)\n@t0('d')\n@t0('e')\ndef {B}(x0):\n    return -x0\nprint(r0, {B}(2))\n",
+    "import-alias-and-function":
+        "import string as {A}\nd0 = {A}.digits[:3]\ndef {B}():\n    import os.path as {A}\n    return {A}.basename('a/b')\nprint(d0, {B}())\n",
+    "loop-targets":
+        "for {A} in [1, 2, 3]:\n    if {A} == 2:\n        break\nfor {B} in [7, 8]:\n    for {A} in [4, 5]:\n        if {A} == 5:\n            break\n    else:\n        {B} = -1\nprint({A}, {B})\n",
+    "lambda-parameter-and-function":
+        "def {A}(z0):\n    g0 = lambda {B}, y0=z0: {B} + y0\n    def i0():\n        nonlocal z0\n        z0 += 1\n    i0()\n    return g0(1), z0\nprint({A}(2))\n",
+    "comprehension-target-and-function":
+        "def {A}(z0):\n    def i0():\n        nonlocal z0\n        z0 += 1\n    i0()\n    return [{B} + z0 for {B} in range(2)]\nprint({A}(2))\n",
+    "methods-with-super-in-two-classes":
+        "class B0:\n    def {A}(self):\n        return 'b'\n    def {B}(self):\n        return 'B'\nclass K0(B0):\n    def {A}(self):\n        return 'k' + super().{A}()\n    def {B}(self):\n        return 'K' + super().{B}() + self.{A}()\nprint(K0().{A}(), K0().{B}())\n",
+    "global-and-nested-local":
+        "{A} = 10\ndef f0():\n    {B} = 20\n    def g0():\n        global {A}\n        {A} += 1\n        return {A}\n    return g0(), {B}\nprint(f0(), {A})\n",
+}
+COINCIDE_NAMES = [("na0", "nb0"), ("memo", "memo"), ("k", "k"), ("_", "_"), ("it", "it"), ("self", "self"),
+                  ("itertools", "itertools"), ("v", "k"), ("importlib", "importlib"), ("lambda_", "lambda_"),
+                  ("listcomp", "listcomp"), ("type", "type")]
+
+
+def _coincide_shard(item):
+    idx, nshards, switches = item
+    part = new_part()
+    cells = [(t, a, b) for t in sorted(COINCIDE) for (a, b) in COINCIDE_NAMES]
+    for k in range(idx, len(cells), nshards):
+        t, a, b = cells[k]
+        if "user-binds-builtin-called-by-lowering" in switches and (a in BUILTINS_CALLED or b in BUILTINS_CALLED):
+            part["exclusions"]["user-binds-builtin-called-by-lowering"] = part["exclusions"].get("user-binds-builtin-called-by-lowering", 0) + 1
+            continue
+        src = COINCIDE[t].replace("{A}", a).replace("{B}", b)
+        try:
+            compile(src, "<coincide>", "exec")
+        except (SyntaxError, SystemError):
+            part["discarded"]["coincidence-not-valid-python"] += 1
+            continue
+        o = run_code(src, "exec")
+        if not o["ok"]:
+            part["discarded"]["coincidence-original-raises:" + str(o["err"])] += 1
+            continue
+        part["evaluations"] += 1
+        part["classes"]["coincide:" + ("same" if a == b else "different")] += 1
+        if a == b:
+            part["nontrivial"].add(key_hash("coincide", t, a))
+        for cfg in (env.ALL_CFGS if a == b and a == "memo" else _cfgs(k)):
+            with SuffixMonitor() as mon:
+                try:
+                    text = env.convert(src, cfg, 0)
+                    err = None
+                except BaseException as e:
+                    text, err = "", "conversion raised %s: %s" % (type(e).__name__, str(e)[:160])
+            diffs = [err] if err else mon.diffs(text) + binding_site_diffs(text)
+            if not diffs:
+                status, failures, _ = check_program(src, [cfg], orig=o)
+                diffs = failures[0][1] if status == "fail" else []
+            if diffs:
+                part["violations"].append({"payload": program_payload(src, cfg), "diffs": diffs,
+                                           "what": "two entities named %r and %r (%s, %s)" % (a, b, t, env.cfg_name(cfg))})
+                break
+    return part
+
+
 def run(report):
     quick = report.tier == "quick"
-    report.rule = RULE % (len(IDS), len(FEATS))
+    report.rule = RULE % (len(IDS), len(FEATS), len(COINCIDE), len(COINCIDE_NAMES))
     switches = sorted(open_switches('C09'))
     for s in switches:
         report.exclusions.setdefault(s, 0)
     ns = env.NPROC * 4
     items = [(_matrix_shard, (i, ns, switches)) for i in range(ns)]
     items += [(_rename_shard, (env.sub_seed(report.seed, "C09", i), 40 if quick else 800, switches)) for i in range(env.NPROC)]
+    items += [(_coincide_shard, (i, 8, switches)) for i in range(8)]
     # host dimension: hosts before 3.12 recognise implicit scopes by NAME; every cell of the
     # scope-like identifiers and a stride of the others run under the other hosts
     from .. import hosts
